@@ -526,6 +526,7 @@ func (g *xGen) genTxX() hTx {
 	}
 	if g.prof == "c15" {
 		g.c15IsolateDW(&t) // mostly: a DeleteWhere is the whole body of its transaction (store_c15w3.go)
+		g.c15GuardTx(&t)   // wirings whose strategies validate at persist time: guarded creates / updates (store_c15w9.go)
 	}
 	if g.r.chance(3) {
 		pos := g.r.intn(len(t.Ops) + 1)
